@@ -4,6 +4,7 @@ package main
 
 import (
 	"encoding/json"
+	"flag"
 	"fmt"
 	"strings"
 
@@ -26,9 +27,15 @@ type Case struct {
 var classifiers = []string{"KMoved", "KAsk", "KRedirect", "KTryAgain", "KLoading", "KClusterDown", "KNoScript", "KBusyGroup"}
 var addrs = []string{"127.0.0.1:6379", "::1:6379", "[::1]:6379", "2001:db8::1:7000", "host:1", "host", "", ":", ":1", "a:b:c", "[", "1.2.3.4", "fe80::1%eth0:6379"}
 
-func genText(r *gen.Rand) string {
+var keywordOf = map[string]string{"KMoved": "MOVED", "KAsk": "ASK", "KRedirect": "REDIRECT", "KTryAgain": "TRYAGAIN", "KLoading": "LOADING",
+	"KClusterDown": "CLUSTERDOWN", "KNoScript": "NOSCRIPT", "KBusyGroup": "BUSYGROUP"}
+
+func genText(r *gen.Rand, cls string) string {
 	kw := gen.Pick(r, []string{"MOVED", "ASK", "REDIRECT", "TRYAGAIN", "LOADING", "CLUSTERDOWN", "NOSCRIPT", "BUSYGROUP", "MOVE", "ERR", ""})
-	switch r.Intn(8) {
+	if r.Chance(3, 4) { // mostly the classifier's own keyword
+		kw = keywordOf[cls]
+	}
+	switch r.Intn(12) {
 	case 0:
 		return kw
 	case 1:
@@ -53,7 +60,11 @@ func genText(r *gen.Rand) string {
 func genCase(r *gen.Rand, i int) any {
 	switch x := r.Intn(20); {
 	case x < 2:
-		return Case{Op: "cls", Cls: gen.Pick(r, classifiers), Text: genText(r)}
+		cls := gen.Pick(r, classifiers)
+		if r.Chance(1, 2) {
+			cls = gen.Pick(r, classifiers[:3]) // the three that extract an address
+		}
+		return Case{Op: "cls", Cls: cls, Text: genText(r, cls)}
 	case x == 2:
 		return Case{Op: "fixaddr", Text: gen.Pick(r, addrs)}
 	case x == 3:
@@ -89,6 +100,10 @@ var accepted = map[string]string{
 	"AsLMPop": "*~%>", "AsZMPop": "*~%>", "AsFtSearch": "*~%>", "AsFtAggregate": "*~%>", "AsFtAggregateCursor": "*~%>",
 	"ToAny": "$+,(=#:%*~",
 }
+
+// -prop selects which property's direct oracles are evaluated: C15 (panic, nil / error propagation, wrong shape,
+// delegation) or C16 (value faithfulness, delegation); the model comparison is the same for both.
+var propFlag = flag.String("prop", "C15", "C15 | C16")
 
 var viaToString = map[string]bool{"ToString": true, "AsReader": true, "AsBytes": true, "DecodeJSON": true, "AsInt64": true, "AsUint64": true, "AsFloat64": true}
 
@@ -161,6 +176,9 @@ func run(ci any) (res obs.Result) {
 			}
 		}
 		// (3) nil and error replies surface as Nil / RedisError
+		if *propFlag == "C16" {
+			continue
+		}
 		if topNil && o.Kind != "ENil" {
 			fail(a.Name, "nil-propagation", "%s on a nil reply returned %s", a.Name, o.Kind)
 		}
@@ -188,6 +206,9 @@ func run(ci any) (res obs.Result) {
 	}
 	// (5) C16: the un-mutated reply gives back exactly the data it encodes
 	for _, e := range c.Exp {
+		if *propFlag != "C16" {
+			break
+		}
 		if o := outs[e.Acc]; o.Kind != "ok" || o.Val != e.Val {
 			got := o.Val
 			if o.Kind != "ok" {
@@ -238,6 +259,17 @@ func runCls(c Case) (res obs.Result) {
 	kw := map[string]string{"KMoved": "MOVED", "KAsk": "ASK"}[c.Cls]
 	if f := strings.Split(c.Text, " "); kw != "" && len(f) == 3 && f[0] == kw && strings.Contains(f[2], ".") {
 		if want := vTup(vStr(f[2]), vBool(true)); o.Val != want {
+			res.Oracle = fmt.Sprintf("%s(%q) = %s", name, c.Text, o.Val)
+		}
+	}
+	if f := strings.Split(c.Text, " "); c.Cls == "KRedirect" && len(f) == 2 && f[0] == "REDIRECT" && strings.Contains(f[1], ".") {
+		if want := vTup(vStr(f[1]), vBool(true)); o.Val != want {
+			res.Oracle = fmt.Sprintf("%s(%q) = %s", name, c.Text, o.Val)
+		}
+	}
+	// the flag classifiers are prefix tests
+	if kw2, ok := keywordOf[c.Cls]; ok && o.Kind == "ok" && strings.HasPrefix(o.Val, "(VBool") {
+		if want := vBool(strings.HasPrefix(c.Text, kw2)); o.Val != want {
 			res.Oracle = fmt.Sprintf("%s(%q) = %s", name, c.Text, o.Val)
 		}
 	}
